@@ -360,5 +360,6 @@ func runC13(r *run) {
 	c13ShortCounts(r)
 	c13KeptList(r)
 	failingDestinationLeaves(r.violate)
+	subloggerDiagnostics(r.violate)
 	slog.VerifResetGlobals()
 }
